@@ -5,8 +5,8 @@
      - "integer" does not accept a float-typed number (1.0), which serde rejects at integer fields.
    Everything else is [valid_f] verbatim (Model/SchemaOf.v).  [nodup_doc]: no object repeats a
    member (a validator sees the parsed map, the parser sees the text).  No proofs here.
-   MODEL GAP carried over from Model/Serde.v: at a `double` position an integer literal outside i64
-   (serde: z as f64) is not accepted by the parser model, so the strict reading excludes it too. *)
+   (`double` on an integer literal: serde_json only produces integer literals in [-2^63, 2^64), and all
+   of them decode at a number position - Integer if it fits i64, else Float.) *)
 From VV.SERDE Require Export Serde SchemaOf.
 
 Definition has_type_s (t : jtype) (j : json) : bool :=
@@ -21,7 +21,7 @@ Definition fmt_ok (fm : option string) (j : json) : bool :=
       if String.eqb f "uint32" then in_range 0 u32_maxZ z
       else if String.eqb f "int32" then in_range i32_min i32_max z
       else if String.eqb f "int64" then in_range i64_min i64_max z
-      else if String.eqb f "double" then in_range i64_min i64_max z
+      else if String.eqb f "double" then in_range i64_min (two64 - 1)%Z z
       else true
   | _, _ => true
   end.
